@@ -6,6 +6,7 @@ import Xc.Lemmas.Fix
 import Xc.Lemmas.Scrypt
 import Xc.Lemmas.Sunmd5
 import Xc.Lemmas.Gost
+import Xc.Lemmas.HashPart
 import Xc.Thm.C18
 namespace Xc.C01
 open Xc
@@ -410,5 +411,171 @@ theorem C01_roundtrip_row (cfg : Config) (hT : C18.TableOk cfg.table = true) (D 
 theorem C01_roundtrip (cfg : Config) (hT : C18.TableOk cfg.table = true) (D : Digests) (hD : D.WF) (p s H : Bytes)
     (h : cryptPure cfg D p s = .ok H) : cryptPure cfg D p H = .ok H :=
   (C01_roundtrip_row cfg hT D hD p s H h).1
+
+open List in
+theorem hashpart_method (d : Bool) (D : Digests) (hD : D.WF) (m : Method) (p s H : Bytes) (h : cryptMethod d D m p s = .ok H) :
+    HashPart (cryptMethod d D m p) H (max 2 (C18.tagOf m).length) := by
+  obtain ⟨t1, t2, t3, t4, t5, t6, t7, t8, t9, t10, t11, t12, t13⟩ := tag_facts
+  cases m <;> simp only [cryptMethod] at h ⊢
+  case md5crypt =>
+    obtain ⟨salt, e, f⟩ := cryptMd5_refeed h
+    refine ⟨_, _, e, ?_, fun t _ _ => f t⟩
+    rw [t1] ; simp [Gen.md5_salt_prefix] <;> omega
+  case sha256crypt =>
+    obtain ⟨P, e, f⟩ := cryptSha256_refeed h
+    refine ⟨Gen.sha256_salt_prefix ++ (if P.custom then Gen.sha256_rounds_prefix ++ toDec P.rounds ++ [36] else []) ++ P.salt ++ [36], permEncode Gen.perm_sha256crypt (D.sha256crypt p P.salt P.rounds), ?_, ?_, fun t _ _ => ?_⟩
+    · rw [e]; simp only [emitSha]
+    · rw [t2]; simp [Gen.sha256_salt_prefix] <;> omega
+    · show cryptSha256 D p _ = _
+      have := f t; simpa only [emitSha] using this
+  case sha512crypt =>
+    obtain ⟨P, e, f⟩ := cryptSha512_refeed h
+    refine ⟨Gen.sha512_salt_prefix ++ (if P.custom then Gen.sha512_rounds_prefix ++ toDec P.rounds ++ [36] else []) ++ P.salt ++ [36], permEncode Gen.perm_sha512crypt (D.sha512crypt p P.salt P.rounds), ?_, ?_, fun t _ _ => ?_⟩
+    · rw [e]; simp only [emitSha]
+    · rw [t3]; simp [Gen.sha512_salt_prefix] <;> omega
+    · show cryptSha512 D p _ = _
+      have := f t; simpa only [emitSha] using this
+  case sha1crypt =>
+    obtain ⟨P, e, f⟩ := cryptSha1_refeed h
+    refine ⟨_, _, e, ?_, fun t _ _ => f t⟩
+    have : (C18.tagOf .sha1crypt).length ≤ sha1Magic.length := t4.length_le
+    simp [sha1Magic] at this ⊢; omega
+  case nt =>
+    obtain ⟨e, f⟩ := cryptNt_refeed h
+    refine ⟨ntMagic ++ [36], hexLower (D.nt p), e, ?_, fun t _ _ => ?_⟩
+    · rw [t5]; simp [ntMagic]
+    · have := f ([36] ++ t); rwa [← List.append_assoc] at this
+  case descrypt =>
+    obtain ⟨salt, e, f⟩ := cryptDes_refeed h
+    refine ⟨_, _, e, ?_, fun t _ _ => f t⟩
+    rw [t12]; simp
+  case bsdicrypt =>
+    have h9 : 9 ≤ s.length := by
+      unfold cryptBsdi at h
+      split at h; · cases h
+      rename_i hc; simp only [not_or, Nat.not_lt] at hc; exact hc.2
+    obtain ⟨dig, e, f⟩ := cryptBsdi_refeed h
+    refine ⟨s.take 9, dig, e, ?_, fun t _ _ => f t⟩
+    simp <;> omega
+  case bcrypt | bcrypt_y | bcrypt_a | bcrypt_x =>
+    obtain ⟨c22, dig, hl, e, f⟩ := cryptBf_refeed h
+    refine ⟨s.take 28 ++ [c22], dig, e, ?_, fun t _ _ => f t⟩
+    have : ∀ m, (C18.tagOf m).length ≤ 28 := by intro m; cases m <;> decide
+    have := this
+    simp <;> omega
+  case yescrypt =>
+    unfold cryptYescrypt cryptYescryptCore at h
+    split at h; · cases h
+    rename_i out hout
+    cases h
+    obtain ⟨k, dig, hk1, hk2, e, hd, f⟩ := yescryptR_refeed hout
+    refine ⟨s.take k ++ [36], dig, by rw [e]; simp, ?_, fun t _ ht => ?_⟩
+    · have : (C18.tagOf .yescrypt).length = 3 := by decide
+      rw [this]; simp <;> omega
+    · show cryptYescrypt D p _ = _
+      unfold cryptYescrypt cryptYescryptCore
+      have := f t ht.no36
+      simp only [List.append_assoc, List.singleton_append]
+      rw [this, e]
+  case scrypt =>
+    obtain ⟨S, dig, e, hS, f⟩ := cryptScrypt_hashpart D p s H h
+    refine ⟨S, dig, e, ?_, fun t _ ht => f t ht.valid ht.no36⟩
+    have : (C18.tagOf .scrypt).length = 3 := by decide
+    rw [this]; omega
+  case gost_yescrypt =>
+    obtain ⟨S, dig, e, hS, f⟩ := cryptGost_hashpart D hD p s H h
+    refine ⟨S, dig, e, ?_, fun t htl ht => f t ht.no36 (by omega)⟩
+    have : (C18.tagOf .gost_yescrypt).length = 4 := by decide
+    rw [this]; omega
+  case sunmd5 =>
+    obtain ⟨S, dig, e, hS, hdl, f⟩ := cryptSunmd5_hashpart D p s H h
+    refine ⟨S, dig, e, ?_, fun t htl ht => ?_⟩
+    · have : (C18.tagOf .sunmd5).length = 4 := by decide
+      rw [this]; omega
+    · have hne : t ≠ [] := by intro c; rw [c] at htl; simp at htl; omega
+      obtain ⟨a, b⟩ := ht.head hne
+      exact f t a b
+  case bigcrypt =>
+    have hfix := cryptBig_fix d D hD p s H h
+    have h2 : 2 ≤ H.length := by
+      obtain ⟨salt, _, e⟩ := cryptBig_shape h
+      rcases e with e | e <;> rw [e] <;> simp
+    refine ⟨H.take 2, H.drop 2, (List.take_append_drop 2 H).symm, ?_, fun t htl _ => ?_⟩
+    · rw [t11]; simp; omega
+    · exact cryptBig_hashpart d D p H H hfix t (by simp at htl; omega) h2
+
+
+open List in
+/-- **C01, second clause, at the level of the API**: a successful result splits as `H = S ++ dig` (prefix, options, salt | hash
+    portion) and hashing the same phrase with `S` followed by ANY text of the same length over `./0-9A-Za-z` — a superset of every
+    method's hash alphabet — returns `H` again: through the length check, the character filter, the dispatch (same table row) and
+    the method.  Every configuration whose table is `TableOk`. -/
+theorem C01_hashpart_api (cfg : Config) (hT : C18.TableOk cfg.table = true) (D : Digests) (hD : D.WF) (p s H : Bytes)
+    (h : cryptPure cfg D p s = .ok H) :
+    ∃ S dig, H = S ++ dig ∧ ∀ t, t.length = dig.length → HashText t → cryptPure cfg D p (S ++ t) = .ok H := by
+  obtain ⟨hfixH, hrow⟩ := C01_roundtrip_row cfg hT D hD p s H h
+  have hsafeH := (C01_result_passes_filter cfg D hD p s H h)
+  unfold cryptPure at h
+  split at h; · cases h
+  rename_i hlen
+  split at h; · cases h
+  split at h; · cases h
+  rename_i r hr
+  obtain ⟨S, dig, e, hn, f⟩ := hashpart_method cfg.descryptOn D hD r.crypt p s H h
+  have hn2 : 2 ≤ S.length := Nat.le_trans (Nat.le_max_left _ _) hn
+  have hnt : (C18.tagOf r.crypt).length ≤ S.length := Nat.le_trans (Nat.le_max_right _ _) hn
+  refine ⟨S, dig, e, fun t htl ht => ?_⟩
+  have hT' := hT
+  simp only [C18.TableOk, Bool.and_eq_true, List.all_eq_true] at hT'
+  obtain ⟨⟨hpf, _⟩, htag⟩ := hT'
+  have hpf' := hpf
+  simp only [C18.prefixFree, Bool.and_eq_true, List.all_eq_true] at hpf'
+  obtain ⟨⟨hplen, _⟩, _⟩ := hpf'
+  have rmem : r ∈ cfg.table := List.mem_of_find?_eq_some hr
+  have rtag : r.pfx = C18.tagOf r.crypt := by simpa using htag r rmem
+  have rlen : r.plen = r.pfx.length := by simpa using hplen r rmem
+  have hrH : getHashFn cfg.table H = some r := by rw [hrow, hr]
+  have rmatchH : r.matches H = true := by
+    unfold getHashFn at hrH; have := List.find?_some hrH; simpa using this
+  have hSpre : S <+: H := ⟨dig, e.symm⟩
+  have hsafe : passwdSafe (S ++ t) = true := by
+    have hH : passwdSafe H = true := by
+      have := hsafeH.1; rw [checkBad_eq] at this; simpa using this
+    have hS : passwdSafe S = true := by
+      have : S = H.take S.length := by rw [e]; simp
+      rw [this]; exact passwdSafe_take hH _
+    simp only [passwdSafe, List.all_append, Bool.and_eq_true] at hS ⊢
+    exact ⟨hS, ht.safe⟩
+  have hdisp : getHashFn cfg.table (S ++ t) = some r := by
+    apply redispatch cfg.table hT H (S ++ t) r hrH
+    by_cases he : r.pfx = []
+    · right
+      have h2 : 2 ≤ S.length := hn2
+      have hm := rmatchH
+      unfold HashEntry.matches at hm
+      rw [rlen, he] at hm
+      simp only [List.length_nil, Nat.lt_irrefl, if_false, Bool.or_eq_true, Bool.and_eq_true] at hm
+      have hHne : H ≠ [] := hsafeH.2.1
+      have hd : isDesSaltChar (cat H 0) = true ∧ isDesSaltChar (cat H 1) = true := by
+        rcases hm with hm | hm
+        · simp at hm; exact absurd hm hHne
+        · exact hm
+      have c0 : cat (S ++ t) 0 = cat H 0 := by
+        rw [e]; simp only [cat, List.getD_eq_getElem?_getD]
+        rw [List.getElem?_append_left (by omega), List.getElem?_append_left (by omega)]
+      have c1 : cat (S ++ t) 1 = cat H 1 := by
+        rw [e]; simp only [cat, List.getD_eq_getElem?_getD]
+        rw [List.getElem?_append_left (by omega), List.getElem?_append_left (by omega)]
+      refine ⟨he, by rw [c0]; exact hd.1, by rw [c1]; exact hd.2, ?_⟩
+      intro c; have := congrArg List.length c; rw [List.length_append, List.length_nil] at this; omega
+    · left
+      refine ⟨he, ?_⟩
+      have hpH : r.pfx <+: H := C18.matches_prefix r H rlen (by rw [rlen]; exact List.length_pos_iff.mpr he) rmatchH
+      have hpS : r.pfx <+: S := List.prefix_of_prefix_length_le hpH hSpre (by rw [rtag]; exact hnt)
+      exact hpS.trans (List.prefix_append _ _)
+  unfold cryptPure
+  rw [if_neg hlen, checkBad_eq, hsafe]
+  simp only [Bool.not_true, Bool.false_eq_true, if_false, hdisp]
+  exact f t htl ht
 
 end Xc.C01
